@@ -59,7 +59,7 @@ class Session(BusSession):
         self.close_slot('D')
         # small socket buffers on both ends so that a stalled B really backs up inside the bus (the bus-side send buffer
         # is what limits an AF_UNIX stream), where max_outgoing_bytes (see config) then makes the bus refuse further sends
-        self.bus.h.cmd('SOCKBUF %d 2048 2048' % self.slots['B'])
+        self.bus.h.cmd('SOCKBUF %d 0 2048' % self.slots['B'])      # receive side only: B must still be able to WRITE large messages in one piece
         self.answered = {}         # (label, serial) -> number of error replies received so far, over the whole history
         for l in list(self.inbox):
             self.take(l)
